@@ -8,7 +8,7 @@ LEVEL_TEXT = ("Inv (child lists and parent pointers agree, no duplicates, parent
               "setter with its recursive restore, children deleter, constructors - for every forest, every argument, "
               "every fault schedule of the eight hooks (any hook raising at any invocation, once or persistently), "
               "both flavours, both assertion settings and every fuel value, hence for every finite history "
-              "(inv_history). The mirror is tied to "
+              "(inv_history); no internal assertion can fire from a consistent forest, for every schedule, fuel and history (no_assertion_exec, no_assertion_history). The mirror is tied to "
               "/repo by running histories over all forests on 3 (thorough 4) nodes x every call x every single fault "
               "position and persistent fault classes on five node classes with ANYTREE_ASSERTIONS off and on, comparing "
               "the full (parent, children) map after every call, and checking Inv directly on the implementation.")
@@ -16,6 +16,7 @@ LEVEL_NOTE = ("Trusted: Lean kernel, standard axioms only; the hand-written mirr
               "only observe or raise (they do not mutate the tree); asynchronous exceptions between the two statements "
               "of an ATOMIC block and mixed NodeMixin/LightNodeMixin trees are outside the model; non-node arguments to "
               "LightNodeMixin classes are outside the model.")
+MODULES = ['Anytree.Props.C01', 'Anytree.Props.C01b']
 THEOREMS = [
     ("Anytree.Props.C01.inv_empty", "full"),
     ("Anytree.Props.C01.inv_detachRaw", "full"),
@@ -32,8 +33,14 @@ THEOREMS = [
     ("Anytree.Props.C01.not_in_other_children", "full"),
     ("Anytree.Props.C01.no_self_ancestor", "full"),
     ("Anytree.Props.C01.detached_is_root", "full"),
+    ("Anytree.Props.C01.no_assertion_delChildren", "full"),
+    ("Anytree.Props.C01.no_assertion_setChildren", "full"),
+    ("Anytree.Props.C01.no_assertion_setParent", "full"),
+    ("Anytree.Props.C01.no_assertion_ctor", "full"),
+    ("Anytree.Props.C01.no_assertion_exec", "full"),
+    ("Anytree.Props.C01.no_assertion_history", "full"),
 ]
-NOT_COVERED = ["no_assertion_fires (from an Inv state no internal assertion fires) and fuel_suffices (finite fault schedules never diverge) are not yet proved in Lean; both are exercised by the correspondence run with ANYTREE_ASSERTIONS=1"]
+NOT_COVERED = ["fuel_suffices for the restore recursion of the children setter (one level per scheduled fault) is argued informally; the loop check is proved never to run dry above s.n (Inv.chain_lt, Inv.onChain_some)"]
 ASSERTION_SETTINGS = (False, True)
 PREDICATE_SPEC = True
 RULE = ("histories = (ops building one of all ordered labelled forests over k nodes, quick k=3 / thorough k=4) + one "
